@@ -38,12 +38,15 @@ type holderKey struct{}
 // lets the other goroutines hang might cause surprise breakages when a context
 // is shared between goroutines.
 type holder struct {
-	l *limiter
-
 	// status tracks if the holder currently has an in item in l.ch. Before
 	// modifying l.ch, first status must be modified using an atomic operation.
 	// This is the concurrency control.
+	//
+	// It is the first field so that it is 64-bit aligned on 32-bit platforms,
+	// as sync/atomic requires.
 	status int64
+
+	l *limiter
 }
 
 const (
